@@ -2,7 +2,7 @@
     keccak is a Section variable: nothing is assumed about it except that its output has 32
     bytes (true of Keccak-256; needed because the checkpoint hash is copied into a bytes32).
     Collision resistance is never assumed: conclusions carry [keccak_collision]. *)
-From Coq Require Import List ZArith Bool Lia.
+From Coq Require Import String List ZArith Bool Lia.
 From Coq Require Import Strings.Byte.
 From Paloma Require Import Base.Abi Base.AbiProofs Evm.SignFields Evm.SignBytes.
 From Paloma Require Gen.C05.
@@ -503,3 +503,201 @@ Example estimate_zero_is_default :
   outer_preimage 0 (mkItem 7 0 [] 11 (CompassHandover [] 1)) =
   outer_preimage 0 (mkItem 7 Gen.C05.default_estimate [] 11 (CompassHandover [] 1)).
 Proof. vm_compute. reflexivity. Qed.
+
+(** ======== second round: raw delivered values, the compass ABI, the delivered call ======== *)
+
+(** The arguments eth_txable.go packs for delivery are typed as the compass ABI (the JSON shipped in
+    the repository) types its inputs, position by position; their leaves are the delivered fields.
+    For submit_batch (packed outside the repository) the slots ARE the ABI's inputs. *)
+Lemma delivered_slots_match_abi : forall k,
+  map slot_ty (delivered_slots k) = abi_sig k /\ flatten_all (delivered_slots k) = delivered_fields k.
+Proof. destruct k; vm_compute; split; reflexivity. Qed.
+
+(** the signing pre-image of the three kinds whose scheme has the deployment id is the delivered
+    argument list with the id inserted -- same order, same tuple structure *)
+Lemma signed_is_delivered_plus_id : forall k, In k [KLogicCall; KDeploy; KBatch] ->
+  filter (fun s => match s with SF FTurnstoneId => false | _ => true end) (signed_slots k) = delivered_slots k.
+Proof. intros k [<- | [<- | [<- | []]]]; vm_compute; reflexivity. Qed.
+
+Lemma relay_gate_shape :
+  Gen.C05.relay_filter_has_gas_estimate = true /\
+  Gen.C05.batch_relay_requires_estimate = true /\
+  Gen.C05.fees_elected_with_estimate = true /\
+  (forall a, In a ["Message_UpdateValset"; "Message_SubmitLogicCall"; "Message_UploadUserSmartContract"; "Message_CompassHandover"]%string ->
+     In (a, true) Gen.C05.enqueue_sites_require_estimation /\ ~ In (a, false) Gen.C05.enqueue_sites_require_estimation).
+Proof.
+  repeat split; try reflexivity;
+    destruct H as [<- | [<- | [<- | [<- | []]]]]; vm_compute; try tauto;
+    intros X; repeat (destruct X as [X | X]; [discriminate X|]); exact X.
+Qed.
+
+Lemma eff_estimate_nonzero : forall k e, e <> 0 -> eff_estimate k e = e.
+Proof. intros k e H. unfold eff_estimate. apply Z.eqb_neq in H. now rewrite H. Qed.
+
+(** for an item that can be handed out for relaying, the effective value IS the raw value *)
+Lemma raw_is_eff : forall it f, relayable it -> In f (delivered_fields (kind_of it)) ->
+  raw_value it f = Some (fval it f).
+Proof.
+  intros [id est ts rel a] f [He Hf] Hin. unfold kind_of in Hin. simpl in He, Hf, Hin.
+  unfold raw_value, fval, field_value, kind_of. simpl it_action. simpl it_estimate.
+  destruct a as [vs ps i | c p fs s d | c p fs s d | cs d | b | t rs am n tmo]; simpl in Hin;
+    try contradiction;
+    try (destruct fs as [x|]; [| exfalso; now apply Hf]);
+    cbv [Gen.C05.update_valset_delivered Gen.C05.logic_call_delivered Gen.C05.deploy_contract_delivered
+         Gen.C05.compass_update_batch_delivered batch_delivered Gen.C05.submit_batch_delivered In] in Hin;
+    repeat (destruct Hin as [<- | Hin]; [simpl; rewrite ?eff_estimate_nonzero by assumption; reflexivity|]);
+    contradiction.
+Qed.
+
+Lemma raw_slot_vals_ext : forall it it' l,
+  (forall f, In f (flatten_all l) -> raw_value it f = raw_value it' f) -> raw_slot_vals it l = raw_slot_vals it' l.
+Proof.
+  intros it it'.
+  assert (S : forall s, (forall f, In f (flatten s) -> raw_value it f = raw_value it' f) -> raw_slot_val it s = raw_slot_val it' s).
+  { induction s as [f | l IH] using slot_ind'; intros H.
+    - simpl. apply H. now left.
+    - cbn [raw_slot_val]. f_equal. cbn [flatten] in H.
+      induction IH as [|x r Hx Hr IHr]; [reflexivity|]. simpl in H.
+      rewrite Hx by (intros f Hf; apply H; apply in_or_app; now left).
+      rewrite IHr by (intros f Hf; apply H; apply in_or_app; now right). reflexivity. }
+  induction l as [|x r IH]; intros H; [reflexivity|]. simpl. unfold flatten_all in H. simpl in H.
+  rewrite S by (intros f Hf; apply H; apply in_or_app; now left).
+  rewrite IH by (intros f Hf; apply H; apply in_or_app; now right). reflexivity.
+Qed.
+
+Lemma raw_slot_vals_some : forall it l,
+  (forall f, In f (flatten_all l) -> raw_value it f <> None) -> raw_slot_vals it l <> None.
+Proof.
+  intros it.
+  assert (S : forall s, (forall f, In f (flatten s) -> raw_value it f <> None) -> raw_slot_val it s <> None).
+  { induction s as [f | l IH] using slot_ind'; intros H.
+    - simpl. apply H. now left.
+    - cbn [raw_slot_val]. cbn [flatten] in H.
+      assert ((fix go (l0 : list slot) : option (list abival) :=
+                 match l0 with
+                 | [] => Some []
+                 | x :: r => match raw_slot_val it x, go r with Some v, Some vs => Some (v :: vs) | _, _ => None end
+                 end) l <> None) as G.
+      { induction IH as [|x r Hx Hr IHr]; [discriminate|]. simpl in H.
+        destruct (raw_slot_val it x) eqn:E1; [| exfalso; apply Hx; [intros f Hf; apply H; apply in_or_app; now left | reflexivity]].
+        match goal with |- match ?g with _ => _ end <> None => destruct g eqn:E2 end; [discriminate|].
+        exfalso. apply IHr; [intros f Hf; apply H; apply in_or_app; now right | reflexivity]. }
+      match goal with |- option_map _ ?g <> None => destruct g end; [discriminate | contradiction]. }
+  induction l as [|x r IH]; intros H; [discriminate|]. simpl. unfold flatten_all in H. simpl in H.
+  destruct (raw_slot_val it x) eqn:E1; [| exfalso; apply (S x); [intros f Hf; apply H; apply in_or_app; now left | exact E1]].
+  destruct (raw_slot_vals it r) eqn:E2; [discriminate|].
+  exfalso. apply IH; [intros f Hf; apply H; apply in_or_app; now right | reflexivity].
+Qed.
+
+(** the indistinguishable raw values are exactly the documented defaults *)
+Lemma eff_fees_classify : forall fs fs', eff_fees fs = eff_fees fs' ->
+  fs = fs' \/ (fs = None /\ fs' = Some default_fees) \/ (fs = Some default_fees /\ fs' = None).
+Proof.
+  intros [x|] [y|] E; simpl in E.
+  - left. now f_equal.
+  - right. right. now subst.
+  - right. left. now subst.
+  - now left.
+Qed.
+
+Definition default_of (k : kind) : Z := eff_estimate k 0.
+
+Lemma eff_estimate_classify : forall k e e', eff_estimate k e = eff_estimate k e' ->
+  e = e' \/ (e = 0 /\ e' = default_of k) \/ (e = default_of k /\ e' = 0).
+Proof.
+  intros k e e' E. unfold default_of. unfold eff_estimate in *.
+  destruct (e =? 0) eqn:A; destruct (e' =? 0) eqn:B; simpl;
+    try apply Z.eqb_eq in A; try apply Z.eqb_eq in B; subst; auto.
+Qed.
+
+Section Binding2.
+  Variable keccak : list byte -> list byte.
+  Hypothesis keccak_len : forall x, length (keccak x) = 32%nat.
+
+  (** The precise clause on RAW values: among items that can be handed out for relaying, equal
+      signing bytes => the very values eth_txable.go packs (raw fees, raw elected estimate) agree. *)
+  Theorem signbytes_bind_raw_delivered_all : forall it it', wf it -> wf it' ->
+    kind_of it = kind_of it' -> via_bridge_contract (kind_of it) = true ->
+    relayable it -> relayable it' ->
+    sign_bytes keccak it = sign_bytes keccak it' ->
+    (forall f, In f (delivered_fields (kind_of it)) -> raw_value it f = raw_value it' f /\ raw_value it f <> None)
+    \/ keccak_collision keccak.
+  Proof.
+    intros it it' Hw Hw' Hk Hv Hr Hr' E.
+    destruct (signbytes_bind_delivered_fields_all keccak keccak_len it it' Hw Hw' Hk Hv E) as [[B _] | C]; [left | now right].
+    intros f Hf. rewrite (raw_is_eff it f Hr Hf).
+    rewrite (raw_is_eff it' f Hr') by (rewrite <- Hk; exact Hf).
+    split; [now rewrite (B f Hf) | discriminate].
+  Qed.
+
+  (** ... hence the whole delivered call (everything but the consensus argument) is determined by
+      the signing bytes: collected signatures cannot authorise another call. *)
+  Theorem signbytes_determine_calldata_all : forall it it', wf it -> wf it' ->
+    kind_of it = kind_of it' -> via_bridge_contract (kind_of it) = true ->
+    relayable it -> relayable it' ->
+    sign_bytes keccak it = sign_bytes keccak it' ->
+    (forall c, delivered_calldata c it = delivered_calldata c it' /\ delivered_calldata c it <> None)
+    \/ keccak_collision keccak.
+  Proof.
+    intros it it' Hw Hw' Hk Hv Hr Hr' E.
+    destruct (signbytes_bind_raw_delivered_all it it' Hw Hw' Hk Hv Hr Hr' E) as [B | C]; [left | now right].
+    intros c. unfold delivered_calldata. rewrite <- Hk.
+    destruct (delivered_slots_match_abi (kind_of it)) as [_ Hfl].
+    assert (raw_slot_vals it (delivered_slots (kind_of it)) = raw_slot_vals it' (delivered_slots (kind_of it))) as Eq.
+    { apply raw_slot_vals_ext. intros f Hf. rewrite Hfl in Hf. now apply B. }
+    rewrite <- Eq.
+    destruct (raw_slot_vals it (delivered_slots (kind_of it))) eqn:Es; [split; [reflexivity | discriminate]|].
+    exfalso. apply (raw_slot_vals_some it (delivered_slots (kind_of it))); [| exact Es].
+    intros f Hf. rewrite Hfl in Hf. now apply B.
+  Qed.
+
+  (** ALL items (relayable or not): equal signing bytes leave exactly two raw freedoms --
+      estimate 0 <-> the default, fees nil <-> the default fees.  In particular a message carrying
+      all-zero (or partially zero) fees is told apart from one carrying the defaults. *)
+  Theorem equal_signbytes_raw_classification : forall it it', wf it -> wf it' ->
+    kind_of it = kind_of it' -> via_bridge_contract (kind_of it) = true ->
+    sign_bytes keccak it = sign_bytes keccak it' ->
+    ((In FEstimate (bound_fields (kind_of it)) ->
+        it_estimate it = it_estimate it' \/
+        (it_estimate it = 0 /\ it_estimate it' = default_of (kind_of it)) \/
+        (it_estimate it = default_of (kind_of it) /\ it_estimate it' = 0)) /\
+     (In FRelayerFee (bound_fields (kind_of it)) ->
+        raw_fees (it_action it) = raw_fees (it_action it') \/
+        (raw_fees (it_action it) = None /\ raw_fees (it_action it') = Some default_fees) \/
+        (raw_fees (it_action it) = Some default_fees /\ raw_fees (it_action it') = None)))
+    \/ keccak_collision keccak.
+  Proof.
+    intros it it' Hw Hw' Hk Hv E.
+    destruct (signbytes_bind_signed_fields_all keccak keccak_len it it' Hw Hw' Hk Hv E) as [B | C]; [left | now right].
+    split.
+    - intros Hin. specialize (B FEstimate Hin). apply fval_estimate in B. rewrite <- Hk in B.
+      now apply eff_estimate_classify.
+    - intros Hin.
+      assert (Hfees : act_fees (it_action it) = act_fees (it_action it')).
+      { assert (In FCommunityFee (bound_fields (kind_of it)) /\ In FSecurityFee (bound_fields (kind_of it))) as [I2 I3].
+        { destruct (kind_of it); apply mem_In in Hin; vm_compute in Hin; try discriminate Hin;
+            split; apply mem_In; vm_compute; reflexivity. }
+        pose proof (B FRelayerFee Hin) as E1. pose proof (B FCommunityFee I2) as E2. pose proof (B FSecurityFee I3) as E3.
+        unfold fval in E1, E2, E3. cbn [field_value] in E1, E2, E3.
+        injection E1 as E1. injection E2 as E2. injection E3 as E3.
+        destruct (act_fees (it_action it)), (act_fees (it_action it')); simpl in *; congruence. }
+      destruct it as [id est ts rel a]. destruct it' as [id' est' ts' rel' a']. unfold kind_of in Hk, Hin. simpl in *.
+      destruct a; apply mem_In in Hin; vm_compute in Hin; try discriminate Hin;
+        destruct a'; try discriminate Hk; simpl in *; now apply eff_fees_classify.
+  Qed.
+End Binding2.
+
+(** all-zero and partially-zero fee sets are NOT the defaults: the pre-images differ *)
+Example zero_fees_are_not_the_defaults :
+  let m fs := mkItem 7 5 [] 11 (SubmitLogicCall 5 [] fs [] 1) in
+  outer_preimage 0 (m (Some (mkFees 0 0 0))) <> outer_preimage 0 (m None) /\
+  outer_preimage 0 (m (Some (mkFees 0 0 0))) <> outer_preimage 0 (m (Some default_fees)) /\
+  outer_preimage 0 (m (Some (mkFees 100000 0 100000))) <> outer_preimage 0 (m (Some default_fees)) /\
+  outer_preimage 0 (m None) = outer_preimage 0 (m (Some default_fees)).
+Proof. vm_compute. repeat split; try discriminate; reflexivity. Qed.
+
+Example relayable_sample :
+  relayable (mkItem 7 21000 [] 11 (SubmitLogicCall 5 [] (Some (mkFees 0 0 0)) [] 1)) /\
+  delivered_calldata (VTuple []) (mkItem 7 21000 [] 11 (SubmitLogicCall 5 [] (Some (mkFees 0 0 0)) [] 1)) <> None /\
+  delivered_calldata (VTuple []) (mkItem 7 21000 [] 11 (SubmitLogicCall 5 [] None [] 1)) = None.
+Proof. split; [split; simpl; [lia | discriminate] | split; vm_compute; [discriminate | reflexivity]]. Qed.
